@@ -22,7 +22,7 @@ RULE = ("one evaluation = one seeded writer history (<= 5 sessions, <= 30 operat
         "verify point; non-trivial = at least one state-changing write and one oracle comparison; distinct = distinct "
         "event-log digests (operation sequence + data hashes + results)")
 STATE_MEASURE = "distinct (mode, session index, feature kind, part length relative to chunk length, nan pattern) tuples"
-PROBES = ["side_file_with_other_event_shape", "first_access_with_lossy_dtype", "remainder_after_full_chunk", "append_across_sessions", "replace_existing", "reset_nonempty",
+PROBES = ["metadata_dict_shared_with_other_file", "side_file_with_other_event_shape", "first_access_with_lossy_dtype", "remainder_after_full_chunk", "append_across_sessions", "replace_existing", "reset_nonempty",
           "log_append_longer_than_first", "log_multibyte", "bare_close", "h5file_target", "contour_across_sessions",
           "rejected_call", "table_with_attrs", "trace_subset_replace", "part_equals_chunk", "single_event_part", "integer_table"]
 COMPONENTS = {
@@ -62,7 +62,9 @@ def make_trace(seed, tier):
                   # another file written earlier in the same process holds the user-shaped feature with this event shape
                   "side_shape": r.choice([None, None, [4, 3], [12], [2, 6], [3, 4]]),
                   # the first access of scalar features of the reopened file asks for a lossy dtype
-                  "dtype_first": r.random() < 0.3},
+                  "dtype_first": r.random() < 0.3,
+                  # one metadata dictionary of the caller is stored into another file first and then into this one
+                  "shared_meta": r.random() < 0.25},
         "feats": feats,
         "max_ops": r.choice([6, 12, 20, 30]),
         "ops": None,
@@ -534,6 +536,11 @@ class Machine:
             exp[(sec, key)] = e
         with ctx.sut("C01.store_metadata"):
             self.writer.store_metadata(meta)
+            if getattr(self, "shared_meta", None) is not None:
+                # the caller's own dictionary, stored into the side file before
+                self.writer.store_metadata(self.shared_meta)
+                exp[("setup", "channel width")] = 25.0
+                exp[("experiment", "sample")] = "shared"
         ctx.state_ops += 1
         ctx.log("w", f"meta {len(exp)}", seeds.short_hash(sorted((k, repr(v)) for k, v in exp.items())))
         for (sec, key), e in exp.items():
@@ -612,6 +619,14 @@ class Machine:
                 got = [x.decode("utf-8", "replace") if isinstance(x, bytes) else x for x in lg[name][:]]
                 if got != lines:
                     self.log_violation(name, lines, got, "raw")
+        if getattr(self, "shared_meta", None) is not None:
+            with h5py.File(self.path, "r") as h:
+                sv = h.attrs.get("setup:software version", "")
+                sv = sv.decode() if isinstance(sv, bytes) else str(sv)
+            ctx.checked()
+            if "SideSoft" in sv:
+                ctx.violation("C01.meta.value", f"setup:software version of this file is '{sv}': it carries the version chain of the other file "
+                                                f"that the same metadata dictionary was stored into before", sig={"key": "software version", "what": "foreign_chain"})
         if not m.feats:
             ctx.log("v", "verify (no features)")
             return
@@ -760,7 +775,20 @@ def run(trace, ctx):
                     hw.store_feature("deform", np.linspace(0.01, 0.02, 3))
                     hw.store_feature("tmp_shaped", sdata)
             ctx.probe("side_file_with_other_event_shape")
+    shared = None
+    if trace["knobs"].get("shared_meta"):
+        import h5py
+        from dclab.rtdc_dataset.writer import RTDCWriter
+        shared = {"setup": {"channel width": 25.0}, "experiment": {"sample": "shared"}}
+        with h5py.File(ctx.scratch / "side_meta.rtdc", "w") as h:
+            h.attrs["setup:software version"] = "SideSoft 1.0"
+        with ctx.sut("C01.side_file"):
+            with RTDCWriter(ctx.scratch / "side_meta.rtdc", mode="append") as hw:
+                hw.store_metadata(shared)
+                hw.store_feature("deform", np.linspace(0.01, 0.02, 3))
+        ctx.probe("metadata_dict_shared_with_other_file")
     mach = Machine(trace, ctx, ctx.scratch / "w.rtdc")
+    mach.shared_meta = shared
     while True:
         op = ctx.next_op(mach.gen_op, max_ops=trace.get("max_ops", 20))
         if op is None:
